@@ -27,7 +27,7 @@ type c16 struct{}
 func (c16) ID() string    { return "C16" }
 func (c16) Level() string { return "model_checking" }
 func (c16) Rule() string {
-	return "cases = (a) every ordered pair (thorough: also triples) of data-independent tasks from a menu chosen to collide on anything global - Solve with the learned-clause trace observed through the certificate channel on conflict-producing formulas, CountModels, Optimal, maxsat.Solve, explain.MUS, explain.UnsatSubset, bf.Solve on a CNF-shaped and on a non-CNF formula with an exactly-one group (auxiliary variables) - run as concurrent threads; (b) single calls that start goroutines internally (UnsatSubset, Solver.Optimal and Enumerate with a consumer, WCNF Optimal with its forwarder). ALL schedules with at most 2 preemptions (3 thorough) are enumerated under the cooperative scheduler (for the task pairs, whose threads block on every certificate line, additionally at most 5 (6) non-default choices in total, free switches at blocking points included); scheduling points: thread start/exit, goroutine creation, every channel operation, every access to a package-level variable that is written anywhere in its package or to a local captured by a go-function (found by the rewriter from /repo's working tree) and every statement of the functions that touch one. Oracle on every schedule: each thread's semantic observation (verdict, validity of its model, count, optimum, validity/minimality of its MUS) equals its observation when run alone (the exact model, learned-clause trace and statistics are compared too, for information only); no happens-before race on the instrumented variables; no deadlock, send on closed, double close or panic. (c) the same bodies run free under the Go race detector (cmd/mcrace; sampling, reported separately in the evidence). Non-trivial = the case has at least 2 schedules."
+	return "cases = (a) every ordered pair (thorough: also triples) of data-independent tasks from a menu chosen to collide on anything global - Solve with the learned-clause trace observed through the certificate channel on conflict-producing formulas, CountModels, Optimal, Solve with cutting planes on the clausal pigeonhole problem PHP(5,4) under a small learned-constraint limit (learned PB constraints get deleted during the run), maxsat.Solve, explain.MUS, explain.UnsatSubset, bf.Solve on a CNF-shaped and on a non-CNF formula with an exactly-one group (auxiliary variables) - run as concurrent threads; (b) single calls that start goroutines internally (UnsatSubset, Solver.Optimal and Enumerate with a consumer, WCNF Optimal with its forwarder). ALL schedules with at most 2 preemptions (3 thorough) are enumerated under the cooperative scheduler (for the task pairs, whose threads block on every certificate line, additionally at most 5 (6) non-default choices in total, free switches at blocking points included); scheduling points: thread start/exit, goroutine creation, every channel operation, every access to a package-level variable that is written anywhere in its package or to a local captured by a go-function (found by the rewriter from /repo's working tree) and every statement of the functions that touch one. Oracle on every schedule: each thread's semantic observation (verdict, validity of its model, count, optimum, validity/minimality of its MUS) equals its observation when run alone (the exact model, learned-clause trace and statistics are compared too, for information only); no happens-before race on the instrumented variables; no deadlock, send on closed, double close or panic. (c) the same bodies run free under the Go race detector (cmd/mcrace; sampling, reported separately in the evidence). Non-trivial = the case has at least 2 schedules."
 }
 func (c16) Assumptions() []string {
 	return []string{"the exhaustive part sees races on instrumented variables only (package-level variables and go-captured locals); races on other memory are left to the differential oracle and to the free-running race-detector pass, which samples schedules", "Verbose output is off (the statement excludes it)"}
@@ -54,6 +54,7 @@ func taskMenu(seed int64, tier string) []conc.Task {
 		{Kind: "subset", F: par3, N: 3},
 		{Kind: "bf", F: sat5, N: 5},
 		{Kind: "bf-dnf", F: two, N: 3},
+		{Kind: "solve-cp", N: 4},
 	}
 	if tier == "thorough" {
 		menu = append(menu, conc.Task{Kind: "solve-cert", F: par3, N: 3})
